@@ -118,5 +118,5 @@ def kg_argsort(a, backend, descending=False):
 
     # Slow path: nested arrays or strings need element-by-element comparison
     def _e(x):
-        return (-np.inf, x) if is_empty(a[x]) else (np.max(a[x]), x) if is_list(a[x]) else (a[x], x)
+        return (a[x] if isinstance(a[x], str) else -np.inf, x) if is_empty(a[x]) else (np.max(a[x]), x) if is_list(a[x]) else (a[x], x)
     return np.asarray(sorted(range(len(a)), key=_e, reverse=descending))
